@@ -112,9 +112,14 @@ impl SwiftField for Field53B {
         //   - Looks like BIC (8-11 uppercase alphanumeric) -> party_identifier
         //   - Otherwise -> location
         // The identifier with its leading slash is /1!a/34x at the longest
-        let id_max = |line: &str| if line.starts_with('/') { 37 } else { 34 };
+        let id_max = super::field_utils::party_identifier_line_max;
         for line in &lines {
             parse_swift_chars(line, "Field53B line")?;
+            if *line == "/" {
+                return Err(ParseError::InvalidFormat {
+                    message: "Field53B party identifier is empty after '/'".to_string(),
+                });
+            }
         }
         if lines.len() > 2 {
             return Err(ParseError::InvalidFormat {
@@ -219,7 +224,12 @@ impl SwiftField for Field53D {
 
             if looks_like_party_id && !first_line.is_empty() && lines.len() > 1 {
                 // Entire first line is party identifier
-                if first_line.len() > 37 {
+                if *first_line == "/" {
+                    return Err(ParseError::InvalidFormat {
+                        message: "Field 53D party identifier is empty after '/'".to_string(),
+                    });
+                }
+                if first_line.len() > super::field_utils::party_identifier_line_max(first_line) {
                     return Err(ParseError::InvalidFormat {
                         message: "Field 53D party identifier exceeds /1!a/34x".to_string(),
                     });
